@@ -101,9 +101,10 @@ DB_ASSUME = [
 ]
 PROPS["C07"] = {
     "units": ["db"],
-    "probes": {"db": ["db::Reader::read_file", "db::Reader::read_record", "db::RecordWriter::finish"]},
+    "probes": {"db": ["db::Reader::read_file", "db::Reader::read_record", "db::RecordWriter::finish", "db::open"]},
     "level": "proof",
-    "assumptions": DB_ASSUME + ["Reader::read (constructs the BufReader) and db::open (OpenOptions, metadata().len(), set_len truncation, re-writing the header of an empty log) are not under contract yet: the truncation to the returned valid length is the part of the C07 fix that is only tested (findings/D6/demo.sh), not proved",
+    "assumptions": DB_ASSUME + ["db::open and Reader::read are under contract over a trusted file model (io.pre.rs: disk(path) = bytes on disk at entry, fcontent(file), append-mode writes go to the end, metadata().len()/set_len/File::create/BufReader::new wrappers): for every disk content that is a byte-prefix of a log n2 can write, the Writer returned by open appends to ds::kept(content) -- header + complete records, or a fresh header if the header itself was torn.  That kept(content) is again a loadable log ending at a record boundary (prefix-closure of wf_stream) is argued from the definitions, not proved as a lemma",
+                    "Reader methods carry the frame `the &mut Graph / &mut Hashes fields are not re-seated` (mut_ref_future), needed because Verus does not resolve &mut fields of a dropped struct by itself",
                     "what the kernel persists of one write is modelled as 'a prefix of the buffer' (write_all's Err/crash clause); fsync / ordering across files not modelled"],
 }
 PROPS["C08"] = {
@@ -261,8 +262,8 @@ LEVEL_TEXT = {
         "design_ref": "DESIGN.md §6 C19",
     },
     "C07": {
-        "text": "Unbounded proof (Verus) on the real (fixed) db.rs: for every byte stream that is a complete-records-plus-torn-tail stream (wf_stream: spec-level parser of the record grammar, ids defined before use), Reader::read_file returns Ok -- never an error, never a panic (all index obligations discharged) -- with exactly the complete records applied (read_record: a torn record is an EOF error that leaves ids, graph and hashes untouched) and returns the offset of the end of the last complete record (valid_len), to which db::open truncates before appending; files shorter than the header load as empty. Each record reaches the file in one write_all (RecordWriter::finish).",
-        "note": "Two genuine defects found with this contract (torn tail => permanent load failure; 1-byte tail => misaligned appends) and fixed in /repo (a52cbb8). Trusted: io model (read_exact fails only with EOF), stream_position, utf-8 model. db::open/Reader::read glue not under contract.",
+        "text": "Unbounded proof (Verus) on the real (fixed) db.rs: for every byte stream that is a complete-records-plus-torn-tail stream (wf_stream: spec-level parser of the record grammar, ids defined before use), Reader::read_file returns Ok -- never an error, never a panic (all index obligations discharged) -- with exactly the complete records applied (read_record: a torn record is an EOF error that leaves ids, graph and hashes untouched) and returns the offset of the end of the last complete record (valid_len); db::open (also proved, over a trusted file model) truncates the file to exactly that length -- or rewrites the header when even that was torn -- before the Writer appends; files shorter than the header load as empty. Each record reaches the file in one write_all (RecordWriter::finish).",
+        "note": "Two genuine defects found with this contract (torn tail => permanent load failure; 1-byte tail => misaligned appends) and fixed in /repo (a52cbb8). Trusted: io model (read_exact fails only with EOF), stream_position, file model of db::open, utf-8 model.",
         "design_ref": "DESIGN.md §6 C07",
     },
     "C08": {
